@@ -49,15 +49,36 @@ KindNo(k) == CHOOSE i \in 1..10 : <<"uri", "uris", "raw", "uripost", "jsonline",
                                     "grpcjson", "json">>[i] = k
 WNo(w)    == CHOOSE i \in 1..11 : <<<<1>>, <<1, 1>>, <<1, 1, 1>>, <<3>>, <<2, 2>>, <<4, 2>>, <<1, 2>>, <<6, 3, 3>>,
                                     <<1, 1, 1, 1>>, Ones(40), <<60, 40>>>>[i] = w
-CaseOf(cc) == [kind |-> cc.kind, preload |-> cc.preload, limit |-> cc.limit, passes |-> cc.passes, w |-> cc.w,
-               nc |-> cc.nc, cut |-> cc.cut,
-               id |-> (((((KindNo(cc.kind) * 2 + (IF cc.preload THEN 1 ELSE 0)) * 128 + cc.limit) * 8 + cc.passes) * 16
-                        + WNo(cc.w)) * 4 + cc.nc) * 2 + cc.cut,
-               entries |-> Entries(cc), ring |-> Ring(cc.kind, cc.w),
+IdOf(cc)   == (((((KindNo(cc.kind) * 2 + (IF cc.preload THEN 1 ELSE 0)) * 128 + cc.limit) * 8 + cc.passes) * 16
+                 + WNo(cc.w)) * 4 + cc.nc) * 2 + cc.cut
+CaseBody(cc, id) ==
+              [kind |-> cc.kind, preload |-> cc.preload, limit |-> cc.limit, passes |-> cc.passes, w |-> cc.w,
+               nc |-> cc.nc, cut |-> cc.cut, id |-> id,
+               entries |-> Entries(cc),
                bounded |-> Bounded(cc), expected |-> Expected(cc), cap |-> Cap(cc), stop |-> Stop(cc),
                hist |-> Hist(cc, IF cc.cut > 0 THEN Stop(cc) ELSE IF Bounded(cc) THEN Expected(cc) ELSE Cap(cc))]
+CaseOf(cc) == CaseBody(cc, IdOf(cc))
 
-\* generator run: INIT Init, NEXT GenNext, INVARIANT GenOut - one printed line per cell
+\* ---- seeded random cells (M1, larger sizes): coordinates come from a file, everything else is computed here ----
+RandBase  == 10000000       \* ids of random cells start here
+RandRows  == ndJsonDeserialize(IOEnv.VERIF_CELLS)
+RandCell(i) == LET r == RandRows[i] IN [kind |-> r.kind, preload |-> r.preload, limit |-> r.limit, passes |-> r.passes,
+                                        w |-> r.w, nc |-> r.nc, cut |-> r.cut, id |-> r.id]
+\* a requested cut that is no cut (>= Expected) is dropped here: the generator knows nothing about Expected
+RandSet   == {cc \in {RandCell(i) : i \in 1..Len(RandRows)} : CellOK(cc)}
+RandOK    == c.kind \in AllKinds /\ (c.preload => c.kind \in HttpKinds)
+
+\* ---- the case tables of the two tiers: exhaustive small matrix + large files (+ the random cells) ----
+SmallCells == CellsOf(AllKM, L04, P03, W3, C13, CutBoth)
+BigCells   == CellsOf(AllKM, L04, P03, WMore, C13, CutBoth)
+LargeCells == CellsOf(AllKM, LLarge, PLarge, WLarge, C13x, CutBoth)
+QuickTable    == SmallCells \cup LargeCells
+ThoroughTable == BigCells \cup LargeCells
+\* generator run: INIT Gen*Init, NEXT GenNext, INVARIANT GenOut - one printed line per cell
 GenNext == UNCHANGED vars
-GenOut  == PrintT(<<"VERIF", ToJson(CaseOf(c))>>)
+GenQuickInit    == InitWith(QuickTable \cup RandSet)
+GenThoroughInit == InitWith(ThoroughTable \cup RandSet)
+GenOut  == PrintT(<<"VERIF", ToJson(IF "id" \in DOMAIN c THEN CaseBody(c, c.id) ELSE CaseOf(c))>>)
+\* the closed form of Hist agrees with counting over the explicit ring (checked on every small cell)
+HistAgrees == Entries(c) > 6 \/ \A n \in 0..(Cap(c) + 1) : Hist(c, n) = HistByRing(c, n)
 =============================================================================
